@@ -320,6 +320,12 @@ func c16(r *Report) {
 		}
 	})
 
+	r.Guard("C16.R2", "every logged exchange has an entry with its request, and its response reaches the log it is served from", func() {
+		harEntryCompleteRule(r)
+		harExportResetRule(r)
+		partialStatusRule(r)
+	})
+
 	r.Guard("C16.R2", "the entry's fields are taken from the corresponding parts of the message", func() {
 		// the logged body is exactly what was read from the decoded body reader: text
 		// and size come from the slice ReadAll returned (a buffer sized from a header and
@@ -1154,6 +1160,34 @@ func capturedValue(cell *ssa.Alloc) ssa.Value {
 // that differ in case and renames what is logged). Shared by C16.R6 and C19.R4.
 func headerMapKeysRule(r *Report) {
 	w := r.W
+	// the list of transfer codings is reported whole: the Transfer-Encoding arm of All hands out
+	// the message's own list (all of its elements), not a list made of one joined or first value
+	if all := w.method(w.Named("proxyutil", "Header"), "All"); all != nil && all.Blocks != nil {
+		r.Touch(all)
+		whole := false
+		for _, ret := range returns(all) {
+			for _, rv := range retVals(ret, 0) {
+				for v := range w.backSlice(rv, flowOpt{CallArg: true}) {
+					if c, isC := v.(*ssa.Call); isC {
+						if sc := c.Call.StaticCallee(); sc != nil && sc.Name() == "te" {
+							whole = true
+						}
+						if ld, isLd := c.Call.Value.(*ssa.UnOp); isLd && !c.Call.IsInvoke() {
+							if fa, isFa := ld.X.(*ssa.FieldAddr); isFa && fieldObj(fa).Name() == "te" {
+								whole = true
+							}
+						}
+					}
+					if ld, isLd := v.(*ssa.UnOp); isLd && ld.Op == token.MUL {
+						if fa, isFa := ld.X.(*ssa.FieldAddr); isFa && fieldObj(fa).Name() == "TransferEncoding" {
+							whole = true
+						}
+					}
+				}
+			}
+		}
+		r.Decide("flow", "(*M/proxyutil.Header).All reports every transfer coding of the message", whole, "a return value is the message's TransferEncoding list", "All answers Transfer-Encoding with a list built from a single value (the first coding): the second and later codings of the message are missing wherever the header list is taken from Map - the HAR entry, the marbl frames", all.Pos())
+	}
 	mp := w.method(w.Named("proxyutil", "Header"), "Map")
 	if mp == nil || mp.Blocks == nil {
 		r.Undecided("M/proxyutil.Header.Map", "UNRESOLVED")
